@@ -96,9 +96,18 @@ def _pick_names(n):
   """n member names whose string hashes land in distinct, ascending slots of an 8-slot set
   table, so that Python sets of them iterate in index order under any hash seed (the
   code-shaped model iterates sets in ascending order)."""
-  assert n <= 4
+  assert n <= 8
   by_slot = {}
   i = 0
+  if n > 4:
+    # a set of 5..8 names lives in a 16- or 32-slot table (a set of <= 4 of them in an 8-slot one): names whose
+    # hashes land in slots 0..7 of the 32-slot table iterate in index order in all three
+    while len(by_slot) < 8 and i < 1000000:
+      nm = 'member_%04d' % i
+      if hash(nm) & 31 < 8:
+        by_slot.setdefault(hash(nm) & 31, nm)
+      i += 1
+    return [by_slot[s] for s in sorted(by_slot)[:n]]
   while len(by_slot) < 8 and i < 100000:
     nm = 'member_%04d' % i
     by_slot.setdefault(hash(nm) & 7, nm)
@@ -550,6 +559,53 @@ def _systematic():
               ops.append(['ZC', m])
           ops.append(['Q'])
           out.append({'n': n, 'nv': n, 'rj': rj, 'rl': rl, 'ops': ops, 'endpoint': None})
+  return out
+
+
+def _mid_read_deletions(thorough):
+  """The whole path goes away while the notification worker is in the middle of reading a fresh listing.
+  Requests of the session are answered in issue order, so the worker (one read per new member, _members filled
+  only after the last one) and the watcher (ChildrenWatch re-listing -> NoNode, DataWatch get -> NoNode,
+  exists -> None, _data_changed(None)) advance alternately: which of them is ahead when the path is reported gone
+  depends on how many reads the worker still has to make and on when the first child event was seen.
+    before   members announced earlier: '0' none; '1' one (still present); '1x' one, announced and left again
+    j        new members created at once (one listing with j nodes to read)
+    s        Serve steps before the deletion starts (0: child event only, 1: listing answered / first read
+             pending, 2: first read answered / second pending, ... j+1: all read, quiescent)
+    order    members deleted in ascending / descending order of their names (which of them is still there when
+             its read is answered)
+    p, t     t further Serve steps after the p-th deletion (t = 0: none)
+  then the path is deleted and everything is served to quiescence: the consumer must hold nothing; without and
+  with a later re-creation of the path (after that quiescent point) with one of the members.
+  Policies: no callback raises / every on_leave raises / every on_join raises (thorough: also every single one)."""
+  out = []
+  for before in (('0', '1', '1x') if thorough else ('0', '1')):
+    k = 0 if before == '0' else 1
+    for j in range(1, (6 if before == '0' else 5) if thorough else 5):
+      n = k + j
+      new = list(range(k + 1, n + 1))
+      doomed = new if before != '1' else [1] + new
+      pols = [([], []), ([], list(range(1, n + 1))), (list(range(1, n + 1)), [])]
+      if thorough:
+        pols += [([], [m]) for m in range(1, n + 1)] + [([m], []) for m in range(1, n + 1)]
+      for s in range(0, j + 2):
+        for order in ((doomed, doomed[::-1]) if len(doomed) > 1 else (doomed,)):
+          for p, t in [(0, 0)] + [(p, t) for p in range(1, len(order) + 1) for t in ((1, 2) if thorough else (1,))]:
+            head = [['PC'], ['Q']]
+            if k:
+              head += [['ZC', 1], ['Q']]
+            if before == '1x':
+              head += [['ZD', 1], ['Q']]
+            head += [['ZC', m] for m in new] + [['S']] * s
+            for i, m in enumerate(order):
+              head.append(['ZD', m])
+              if p == i + 1:
+                head += [['S']] * t
+            head += [['PD'], ['Q']]
+            for rj, rl in pols:
+              for back in ((False, True) if (thorough or not (rj or rl)) else (False,)):
+                ops = head + ([['PC'], ['ZC', n], ['Q']] if back else [])
+                out.append({'n': n, 'nv': n, 'rj': rj, 'rl': rl, 'ops': ops, 'endpoint': None})
   return out
 
 
